@@ -4,7 +4,7 @@ C18 — State values behave as immutable Fock states; herald bookkeeping round-t
 Model: LW.Model.StateVal (State, AState, client/alias world, addHeralds/removeHeralds, dbToDec/decToDb,
 processSeed, permRows).  Theorems: LW/Properties/C18.lean.
 
-Six case kinds, all generated from ctx.rng and replayable from their JSON form:
+Seven case kinds, all generated from ctx.rng and replayable from their JSON form:
   state    a State and a list of API queries (counts, str, int / slice subscripts, +, merge, ==,
            refused assignments, client programs that mutate everything the API hands out)
   astate   the same for AnnotatedState (label lists in arbitrary order, non-list elements)
@@ -19,6 +19,14 @@ Six case kinds, all generated from ctx.rng and replayable from their JSON form:
            obj[i], iteration, unpacking, reversed, slices, +, merge, copy, constructor from the state, herald helpers) or
            from a state derived from it is changed in place by any list operation; str / repr / hash / counts / contents of
            every state seen so far must stay what they were
+  ops      operator forms on an object that something else still refers to: every augmented assignment Python offers
+           (`+=` written on a name / a list element / a dict value / an attribute / in an accumulation loop, `*=`, `-=`, `|=`, ...,
+           operator.iconcat), reflected and folded forms (other + obj, sum([...], start), functools.reduce), comparisons, `in`,
+           len / bool / hash / str / format, reversed, copy / deepcopy / pickle round trips, chained and self merges, refused
+           assignments and deletions - with a state, the object itself, an object seen earlier, the other state class, an int, a
+           list, a tuple or None as operand, applied to the original and to every value derived so far.  After every step every
+           state object seen so far (each also held as a dict key, a set member and a list element) must read exactly as when it
+           was first seen and must still be found by an equal fresh key; `b += x` has the value of b + x (model: its `+`)
 Every case is run on lightworks and on the model (corr: differences) and the clauses of the property
 are evaluated on the implementation against plain Python list semantics (oracle: failures).
 """
@@ -63,6 +71,8 @@ ASSUMPTIONS = [
     "a different seed gives a different matrix: relies on numpy's / scipy's generators not colliding for neighbouring seeds "
     "(12 x 12 permutations, chance 1/12!)",
     "mutation of the list object passed to State(...) by its owner is not counted as mutation through the State API",
+    "operator forms the property does not define (-, *, @, <, unary operators, ...; pickling with protocols 0 / 1, which Python "
+    "refuses for classes with __slots__) may succeed or fail; only the immutability of every object seen is checked for them",
 ]
 
 # exception class that `Err.other` ("Exception") stands for, per operation
@@ -265,6 +275,95 @@ def alias_corpus() -> list:
             if acc in ("add", "radd"):  # an empty operand: the sum equals the state itself
                 out.append({"kind": "alias", "type": typ, "v": v, "prog": [[acc, []]] + [["mut", h, "append", 9] for h in range(6)]
                             + [["mut", h, "inner", 9] for h in range(6)]})
+    return out
+
+
+# operator forms applied to an object that is also referenced elsewhere
+AUG_OPS = ["iadd", "iconcat", "isub", "imul", "imatmul", "itruediv", "ifloordiv", "imod", "ipow", "ilshift", "irshift", "iand", "ixor",
+           "ior"]
+IADD_VIA = ["name", "list", "dict", "attr", "loop", "operator"]  # where the augmented statement is written
+BIN_OPS = ["add", "radd", "sub", "mul", "rmul", "matmul", "or", "and", "lt", "le", "gt", "ge", "eq", "ne"]
+FOLD_OPS = ["sum_from_empty", "sum_from_obj", "sum_default", "reduce_add", "reduce_iadd"]
+MERGE_OPS = ["merge", "merge_chain", "merge_self", "merge_reflected"]
+UNARY_OPS = ["pos", "neg", "invert", "abs", "bool", "len", "hash", "str", "repr", "format", "iter", "reversed", "contains", "copy",
+             "deepcopy", "pickle", "getitem", "slice", "s", "setitem", "setslice", "delitem", "delslice", "set_s", "del_s",
+             "set_n_modes", "setattr", "delattr"]
+OPERAND_KINDS = ["same", "same", "same", "empty", "self", "seen", "other_type", "int", "list", "tuple", "none"]
+
+
+def gen_operand(rng, typ: str, kind: str | None = None) -> list:
+    kind = kind or rng.choice(OPERAND_KINDS)
+    val = (lambda n: gen_occ(rng, n=n)) if typ == "state" else (lambda n: gen_rows(rng, n=n))
+    if kind in ("same", "other_type", "list", "tuple"):
+        return [kind, val(rng.randint(0, 3))]
+    if kind == "seen":
+        return [kind, rng.randrange(8)]
+    if kind == "int":
+        return [kind, rng.choice([0, 1, 2, -1, 3])]
+    return [kind]
+
+
+def gen_ops_step(rng, typ: str) -> dict:
+    r = rng.random()
+    step: dict = {"on": rng.choice([0, 0, 0, 1, 2, 3, 5, 7])}
+    if r < 0.30:
+        step.update(op="iadd", via=rng.choice(IADD_VIA), arg=gen_operand(rng, typ, rng.choice(["same", "same", "same", None])))
+    elif r < 0.45:
+        step.update(op=rng.choice(AUG_OPS), arg=gen_operand(rng, typ))
+    elif r < 0.60:
+        step.update(op=rng.choice(BIN_OPS), arg=gen_operand(rng, typ))
+    elif r < 0.70:
+        step.update(op=rng.choice(FOLD_OPS), arg=gen_operand(rng, typ, rng.choice(["same", "same", "seen", "self", "empty"])),
+                    arg2=gen_operand(rng, typ, rng.choice(["same", "seen", "self"])))
+    elif r < 0.80:
+        fit = lambda: ["fit", gen_occ(rng, n=5) if typ == "state" else gen_rows(rng, n=5)]  # noqa: E731
+        step.update(op=rng.choice(MERGE_OPS), arg=rng.choice([fit(), fit(), ["self"], ["seen", rng.randrange(8)]]), arg2=fit())
+    else:
+        step.update(op=rng.choice(UNARY_OPS), k=rng.randint(-3, 4), sl=gen_slice(rng, 4, False), proto=rng.randint(0, 5))
+    return step
+
+
+def gen_ops_case(ctx: Ctx, rng) -> dict:
+    typ = rng.choice(["state", "state", "astate"])
+    v = gen_occ(rng, n=rng.randint(0, 6)) if typ == "state" else gen_rows(rng, n=rng.randint(0, 5))
+    return {"kind": "ops", "type": typ, "v": v, "prog": [gen_ops_step(rng, typ) for _ in range(rng.randint(1, 6))]}
+
+
+def ops_corpus() -> list:
+    """every operator form x every operand kind on an aliased object, and the accumulation histories (directed stream)"""
+    out = []
+    for typ, v, x, y in (("state", [1, 0, 2], [0, 3], [4]), ("astate", [[1, 0], [], [2]], [[4], []], [[5, 5]]),
+                         ("state", [], [1], [0]), ("state", [0, 1], [1, 0], [0, 0])):
+        case = lambda prog: {"kind": "ops", "type": typ, "v": v, "prog": prog}  # noqa: E731,B023
+        operands = [["same", x], ["empty"], ["self"], ["seen", 1], ["other_type", x], ["int", 2], ["list", x], ["tuple", x], ["none"]]
+        for via in IADD_VIA:
+            for arg in operands:
+                out.append(case([{"op": "iadd", "via": via, "on": 0, "arg": arg}]))
+            # the same object is the start of two accumulations; a derived value is accumulated onto as well
+            out.append(case([{"op": "iadd", "via": via, "on": 0, "arg": ["same", x]}, {"op": "iadd", "via": via, "on": 0, "arg": ["same", y]},
+                             {"op": "iadd", "via": via, "on": 2, "arg": ["same", y]}, {"op": "iadd", "via": via, "on": 2, "arg": ["seen", 0]},
+                             {"op": "iadd", "via": via, "on": 0, "arg": ["same", x]}]))
+        for op in AUG_OPS[1:]:
+            for arg in operands:
+                out.append(case([{"op": op, "on": 0, "arg": arg}, {"op": op, "on": 0, "arg": arg}]))
+        for op in BIN_OPS:
+            for arg in operands:
+                out.append(case([{"op": op, "on": 0, "arg": arg}]))
+        for op in FOLD_OPS:
+            for a1, a2 in ((["same", x], ["same", y]), (["self"], ["same", x]), (["empty"], ["self"]), (["seen", 0], ["seen", 0])):
+                out.append(case([{"op": op, "on": 0, "arg": a1, "arg2": a2}, {"op": op, "on": 0, "arg": a1, "arg2": a2}]))
+        for op in MERGE_OPS:
+            for arg in (["fit", x], ["self"], ["seen", 0]):
+                out.append(case([{"op": op, "on": 0, "arg": arg, "arg2": ["fit", y]}, {"op": op, "on": 1, "arg": arg, "arg2": ["fit", y]}]))
+        for op in UNARY_OPS:
+            for k in ((0, 1, -1, 7) if op in ("getitem", "contains", "setitem", "delitem") else range(6) if op == "pickle" else (0,)):
+                out.append(case([{"op": op, "on": 0, "k": k, "sl": [None, None, -1] if k else [0, 2, None], "proto": k}]))
+        # a derived value (slice / copy / sum) is then used as the left side of an augmented assignment
+        for first in ({"op": "slice", "on": 0, "k": 0, "sl": [None, None, None]}, {"op": "copy", "on": 0, "k": 0}, {"op": "deepcopy", "on": 0, "k": 0},
+                      {"op": "pickle", "on": 0, "k": 0, "proto": 4}, {"op": "add", "on": 0, "arg": ["empty"]},
+                      {"op": "radd", "on": 0, "arg": ["empty"]}, {"op": "merge", "on": 0, "arg": ["fit", x], "arg2": ["fit", y]}):
+            out.append(case([first, {"op": "iadd", "via": "name", "on": 1, "arg": ["same", x]}, {"op": "iadd", "via": "name", "on": 2, "arg": ["same", x]},
+                             {"op": "imul", "on": 1, "arg": ["int", 2]}]))
     return out
 
 
@@ -878,6 +977,297 @@ def run_alias(ctx: Ctx, case: dict) -> list[str]:
     return []
 
 
+OBS_FIELDS = ["s", "str", "repr", "hash", "n_photons", "n_modes", "len", "iteration", "integer subscripts", "full slice"]
+ADD_FAMILY = ("iadd", "iconcat", "add", "radd")
+SYMBOL = {"iadd": "+=", "iconcat": "operator.iconcat", "isub": "-=", "imul": "*=", "imatmul": "@=", "itruediv": "/=", "ifloordiv": "//=",
+          "imod": "%=", "ipow": "**=", "ilshift": "<<=", "irshift": ">>=", "iand": "&=", "ixor": "^=", "ior": "|=", "add": "+", "sub": "-",
+          "mul": "*", "matmul": "@", "or": "|", "and": "&", "lt": "<", "le": "<=", "gt": ">", "ge": ">=", "eq": "==", "ne": "!="}
+
+
+def run_ops(ctx: Ctx, case: dict) -> list[str]:
+    """operator forms on objects that are referenced elsewhere.  Oracle: the immutability clause (every state object seen so far
+    reads as when first seen and is still found as a dict key / set member by an equal fresh key) and list semantics for the forms
+    the property defines (+ in all its spellings, merge, ==, len, in, reversed, copies); the value of every sum / merge is also
+    compared with the model's `+` / merge"""
+    import copy as copymod
+    import functools
+    import operator
+    import pickle
+    import types
+
+    typ = case["type"]
+    ann = typ == "astate"
+    cls = AnnotatedState if ann else State
+    kind = "astate" if ann else "state"
+    norm = (lambda v: [sorted(r) for r in v]) if ann else (lambda v: list(v))
+    mk = (lambda v: AnnotatedState([list(r) for r in v])) if ann else (lambda v: State(list(v)))
+    photons = (lambda v: sum(len(r) for r in v)) if ann else (lambda v: sum(v))
+    cat = (lambda a, b: sorted(a + b)) if ann else (lambda a, b: a + b)  # merge of one mode
+    watch: list = []  # every state object seen, with what it looked like when first seen and the containers holding it
+    objs: list = []  # the values a name can be bound to: the original and every result
+
+    def see(name, obj):
+        for w in watch:
+            if w["obj"] is obj:
+                return w
+        k = len(watch)
+        w = {"name": name, "obj": obj, "was": observe(obj), "val": json.loads(json.dumps(obj.s)), "k": k, "d": {obj: k}, "set": {obj},
+             "lst": [obj, obj], "fz": frozenset([obj]), "tup": (obj,)}
+        watch.append(w)
+        return w
+
+    def valof(obj):
+        return see("?", obj)["val"]
+
+    def unchanged(desc: str) -> str | None:
+        for w in watch:
+            now = ires(lambda: observe(w["obj"]))  # noqa: B023
+            if now != ("ok", w["was"]):
+                diff = [f for f, a, b in zip(OBS_FIELDS, w["was"], now[1]) if a != b] if now[0] == "ok" else ["reading it raises"]
+                return (f"oracle: immutability: a {cls.__name__} changed by <{desc}>: {w['name']} (value {w['val']}) now reads "
+                        f"{now[1][0] if now[0] == 'ok' else now} (changed: {', '.join(diff)}); program on {cls.__name__}({case['v']})")
+            fresh = mk(w["val"])
+            found = ires(lambda: (w["d"].get(fresh), fresh in w["set"], w["obj"] in w["set"], w["d"].get(w["obj"]),  # noqa: B023
+                                  w["lst"].count(fresh), fresh in w["fz"], w["tup"].index(fresh), next(iter(w["d"])) is w["obj"]))  # noqa: B023
+            if found != ("ok", (w["k"], True, True, w["k"], 2, True, 0, True)):
+                return (f"oracle: immutability: after <{desc}> {w['name']} (value {w['val']}), held as a dict key / set member / list "
+                        f"element, is no longer found there by an equal {cls.__name__}: {found}")
+        return None
+
+    def operand(spec, target):
+        """-> (object, its value as a state of this class or None, text)"""
+        k = spec[0]
+        if k == "same":
+            o = mk(spec[1])
+            see(f"the operand {cls.__name__}({norm(spec[1])})", o)
+            return o, norm(spec[1]), f"{cls.__name__}({norm(spec[1])})"
+        if k == "fit":  # a state of the same class and length (merge)
+            n = len(valof(target))
+            v = [spec[1][i % len(spec[1])] for i in range(n)]
+            o = mk(v)
+            see(f"the operand {cls.__name__}({norm(v)})", o)
+            return o, norm(v), f"{cls.__name__}({norm(v)})"
+        if k == "empty":
+            o = mk([])
+            see("the empty operand", o)
+            return o, [], f"{cls.__name__}([])"
+        if k == "self":
+            return target, valof(target), "the object itself"
+        if k == "seen":
+            o = objs[spec[1] % len(objs)]
+            return o, valof(o), f"the value #{spec[1] % len(objs)} seen earlier"
+        if k == "other_type":
+            if ann:
+                return State([len(r) for r in spec[1]]), None, "a State"
+            return AnnotatedState([[j] * max(n, 0) for j, n in enumerate(spec[1])]), None, "an AnnotatedState"
+        if k == "int":
+            return spec[1], None, repr(spec[1])
+        if k == "list":
+            return norm(spec[1]), None, f"the list {norm(spec[1])}"
+        if k == "tuple":
+            return tuple(norm(spec[1])), None, f"the tuple {tuple(norm(spec[1]))}"
+        return None, None, "None"
+
+    def model_value(name: str, a: list, b: list):
+        q = [[name, b]]
+        r = ctx.model.call({"op": "sv", "kind": "state", "s": a, "q": q} if not ann else {"op": "sv", "kind": "astate", "rows": a, "q": q})
+        return mres((r["q"] if ann else r)[0], name)
+
+    orig = mk(case["v"])
+    see("the original", orig)
+    objs.append(orig)
+    bad = unchanged("construction")
+    if bad:
+        return [bad]
+    for step in case["prog"]:
+        op = step["op"]
+        T = objs[step["on"] % len(objs)]
+        tv = valof(T)
+        tname = f"b (bound to value #{step['on'] % len(objs)} = {tv})"
+        exp = None  # ("state", value) | ("value", v) | ("err", class) | None = not defined by the property
+        model = None  # (query, left, right) whose model result the state result is compared with
+        ctx.count("ops:" + op)
+        if op in AUG_OPS or op in BIN_OPS:
+            O, ov, otext = operand(step["arg"], T)
+            ctx.count(f"ops:operand:{step['arg'][0]}")
+            via = step.get("via", "operator") if op == "iadd" else "operator"
+            desc = f"b {SYMBOL.get(op, op)} {otext}"
+            if op == "radd":
+                desc = f"{otext} + b"
+            elif op == "rmul":
+                desc = f"{otext} * b"
+            if op == "iadd":
+                ctx.count("ops:iadd:via:" + via)
+                desc += {"name": " (b is a second name of the object)", "list": " (written l[0] += ..., l = [obj, obj])",
+                         "dict": " (written d['k'] += ..., d = {'k': obj})", "attr": " (written ns.x += ..., ns.x = obj)",
+                         "loop": " (twice, in a loop starting from the object)", "operator": " (operator.iadd)"}[via]
+
+                def f():
+                    if via == "name":
+                        b = T
+                        b += O
+                        return b
+                    if via == "list":
+                        l = [T, T]
+                        l[0] += O
+                        if l[1] is not T:
+                            raise AssertionError
+                        return l[0]
+                    if via == "dict":
+                        dd = {"k": T, "other": T}
+                        dd["k"] += O
+                        return dd["k"]
+                    if via == "attr":
+                        ns = types.SimpleNamespace(x=T, y=T)
+                        ns.x += O
+                        return ns.x
+                    if via == "loop":
+                        acc = T
+                        for part in (O, O):
+                            acc += part
+                        return acc
+                    return operator.iadd(T, O)
+            elif op in ("radd", "rmul"):
+                f = (lambda: O + T) if op == "radd" else (lambda: O * T)
+            else:
+                fn = getattr(operator, op if op in AUG_OPS else {"or": "or_", "and": "and_"}.get(op, op))
+                f = lambda: fn(T, O)  # noqa: E731
+            if op in ADD_FAMILY:
+                if ov is not None:
+                    left, right = (ov, tv) if op == "radd" else (tv, ov)
+                    if via == "loop":
+                        exp = ("state", left + right + right)
+                    else:
+                        exp = ("state", left + right)
+                        model = ("add", left, right)
+                else:
+                    exp = ("err", "TypeError")
+            elif op in ("eq", "ne"):
+                exp = ("value", (ov is not None and ov == tv) == (op == "eq"))
+        elif op in FOLD_OPS:
+            (O1, v1, t1), (O2, v2, t2) = operand(step["arg"], T), operand(step["arg2"], T)
+            if op == "sum_from_empty":
+                desc, f, exp = f"sum([b, {t1}, {t2}], {cls.__name__}([]))", (lambda: sum([T, O1, O2], mk([]))), ("state", tv + v1 + v2)
+            elif op == "sum_from_obj":
+                desc, f, exp = f"sum([{t1}, {t2}], b)", (lambda: sum([O1, O2], T)), ("state", tv + v1 + v2)
+            elif op == "sum_default":  # 0 + state: refused unless a reflected + accepts 0
+                desc, f = f"sum([b, {t1}])", (lambda: sum([T, O1]))
+            elif op == "reduce_add":
+                desc, f, exp = f"functools.reduce(operator.add, [b, {t1}, {t2}])", (lambda: functools.reduce(operator.add, [T, O1, O2])), ("state", tv + v1 + v2)
+            else:
+                desc, f, exp = f"functools.reduce(operator.iadd, [{t1}, {t2}], b)", (lambda: functools.reduce(operator.iadd, [O1, O2], T)), ("state", tv + v1 + v2)
+        elif op in MERGE_OPS:
+            (O1, v1, t1), (O2, v2, t2) = operand(step["arg"], T), operand(step["arg2"], T)
+            ok1, ok2 = len(v1) == len(tv), len(v2) == len(tv)
+            m1 = [cat(a, b) for a, b in zip(tv, v1)]
+            if op == "merge":
+                desc, f, exp = f"b.merge({t1})", (lambda: T.merge(O1)), ("state", m1) if ok1 else ("err", "ValueError")
+                model = ("merge", tv, v1) if ok1 else None
+            elif op == "merge_reflected":
+                desc, f, exp = f"{t1}.merge(b)", (lambda: O1.merge(T)), ("state", m1) if ok1 else ("err", "ValueError")
+            elif op == "merge_chain":
+                desc, f = f"b.merge({t1}).merge({t2})", (lambda: T.merge(O1).merge(O2))
+                exp = ("state", [cat(a, b) for a, b in zip(m1, v2)]) if ok1 and ok2 else ("err", "ValueError")
+            else:
+                desc, f, exp = "b.merge(b)", (lambda: T.merge(T)), ("state", [cat(a, a) for a in tv])
+        else:
+            k, slc, proto = step.get("k", 0), sl(step.get("sl", [None, None, None])), step.get("proto", 2)
+            desc = {"getitem": f"b[{k}]", "slice": f"b[{slc.start}:{slc.stop}:{slc.step}]", "contains": f"{k} in b", "pickle": f"pickle round trip of b (protocol {proto})",
+                    "setitem": f"b[{k}] = 9", "delitem": f"del b[{k}]"}.get(op, f"{op} on b")
+            item = ([k] if ann else k)
+            if op in ("pos", "neg", "invert", "abs"):
+                fn = {"pos": operator.pos, "neg": operator.neg, "invert": operator.invert, "abs": abs}[op]
+                f = lambda: fn(T)  # noqa: E731
+            elif op == "bool":
+                f, exp = (lambda: bool(T)), ("value", len(tv) > 0)
+            elif op == "len":
+                f, exp = (lambda: len(T)), ("value", len(tv))
+            elif op == "hash":
+                f, exp = (lambda: hash(T)), ("value", hash(mk(tv)))
+            elif op == "str":
+                f, exp = (lambda: str(T)), ("value", str(mk(tv)))
+            elif op == "repr":
+                f, exp = (lambda: repr(T)), ("value", repr(mk(tv)))
+            elif op == "format":
+                f, exp = (lambda: f"{T}|{T!s:>3}|{T!r}"), ("value", f"{mk(tv)}|{mk(tv)!s:>3}|{mk(tv)!r}")
+            elif op == "iter":
+                f, exp = (lambda: [list(x) if ann else x for x in iter(T)]), ("value", tv)
+            elif op == "reversed":
+                f, exp = (lambda: [list(x) if ann else x for x in reversed(T)]), ("value", tv[::-1])
+            elif op == "contains":
+                f, exp = (lambda: item in T), ("value", item in tv)
+            elif op == "s":
+                f, exp = (lambda: T.s), ("value", tv)
+            elif op == "copy":
+                f, exp = (lambda: copymod.copy(T)), ("state", tv)
+            elif op == "deepcopy":
+                f, exp = (lambda: copymod.deepcopy(T)), ("state", tv)
+            elif op == "pickle":
+                f = lambda: pickle.loads(pickle.dumps(T, proto))  # noqa: E731,S301
+                exp = ("state", tv) if proto >= 2 else None  # protocols 0 / 1 refuse classes with __slots__ (Python's rule)
+            elif op == "getitem":
+                f = lambda: T[k]  # noqa: E731
+                exp = ("value", tv[k]) if -len(tv) <= k < len(tv) else ("err", "IndexError")
+            elif op == "slice":
+                f, exp = (lambda: T[slc]), ("state", tv[slc])
+            else:
+                def f():
+                    if op == "setitem":
+                        T[k] = 9
+                    elif op == "setslice":
+                        T[slc] = [9]
+                    elif op == "delitem":
+                        del T[k]
+                    elif op == "delslice":
+                        del T[slc]
+                    elif op == "set_s":
+                        T.s = [[9]] if ann else [9]
+                    elif op == "del_s":
+                        del T.s
+                    elif op == "set_n_modes":
+                        T.n_modes = 7
+                    elif op == "setattr":
+                        T.label = "x"
+                    elif op == "delattr":
+                        del T.n_photons
+                    return "accepted"
+        got = ires(f)
+        ctx.count(f"ops:{op}:{'ok' if got[0] == 'ok' else got[1]}")
+        res = got[1] if got[0] == "ok" else None
+        if isinstance(res, (State, AnnotatedState)):
+            if type(res) is cls:
+                objs.append(res)
+            fresh_obj = all(w["obj"] is not res for w in watch)
+            if not fresh_obj:
+                ctx.count("ops:result-is-an-existing-object")
+            see(f"the result of <{desc}>", res)
+        # the value the property defines for this form
+        if exp is not None:
+            if exp[0] == "state":
+                ev = exp[1]
+                if got[0] != "ok" or type(res) is not cls:
+                    return [f"oracle: {cls.__name__}({tv}): <{desc}> gave {got if got[0] == 'err' else type(res).__name__}, expected the "
+                            f"{cls.__name__} {ev} [form: {op}]"]
+                if res.s != ev or res.n_modes != len(ev) or res.n_photons != photons(ev) or res != mk(ev) or hash(res) != hash(mk(ev)):
+                    return [f"oracle: {cls.__name__}({tv}): <{desc}> gave {res.s} (n_modes {res.n_modes}, n_photons {res.n_photons}), "
+                            f"expected {ev} [form: {op}]"]
+                if model is not None:
+                    mv = model_value(*model)
+                    if mv != ("ok", res.s):
+                        return [f"corr: {cls.__name__}({tv}) <{desc}>: impl={res.s} model {model[0]}={mv}"]
+            elif exp[0] == "value":
+                if got != ("ok", exp[1]) or type(got[1]) is not type(exp[1]):
+                    return [f"oracle: {cls.__name__}({tv}): <{desc}> gave {got}, expected {exp[1]!r} [form: {op}]"]
+            elif got != exp:
+                return [f"oracle: {cls.__name__}({tv}): <{desc}> gave {got if got[0] == 'err' else 'a result'}, expected {exp[1]} [form: {op}]"]
+        elif op == "sum_default" and got[0] == "ok" and (type(res) is not cls or res.s != tv + v1):
+            return [f"oracle: {cls.__name__}({tv}): <{desc}> gave {got}, expected TypeError or the {cls.__name__} {tv + v1}"]
+        bad = unchanged(desc)
+        if bad:
+            return [bad + f" [form: {op}]"]
+    return []
+
+
 def run_heralds(ctx: Ctx, case: dict) -> list[str]:
     probs: list[str] = []
     s, hl, modes = list(case["s"]), case["h"], list(case["modes"])
@@ -1170,9 +1560,10 @@ def run_rand(ctx: Ctx, case: dict) -> list[str]:
     return probs
 
 
-RUNNERS = {"state": run_state, "astate": run_astate, "heralds": run_heralds, "db": run_db, "rand": run_rand, "alias": run_alias}
+RUNNERS = {"state": run_state, "astate": run_astate, "heralds": run_heralds, "db": run_db, "rand": run_rand, "alias": run_alias,
+           "ops": run_ops}
 GENS = {"state": gen_state_case, "astate": gen_astate_case, "heralds": gen_heralds_case, "db": gen_db_case,
-        "rand": gen_rand_case, "alias": gen_alias_case}
+        "rand": gen_rand_case, "alias": gen_alias_case, "ops": gen_ops_case}
 
 
 def run_case(ctx: Ctx, case: dict) -> list[str]:
@@ -1191,6 +1582,8 @@ def nontrivial(case: dict) -> bool:
         return case["mode"] != "guard" and case.get("x", 1) != 0
     if k == "alias":
         return len(case["v"]) >= 2 and any(op[0] == "mut" for op in case["prog"])
+    if k == "ops":
+        return len(case["v"]) >= 2 and len(case["prog"]) >= 1
     return case["N"] >= 2
 
 
@@ -1222,7 +1615,7 @@ def shrink(ctx: Ctx, case: dict) -> dict:
                 else:
                     break
         cur = {**cur, "rows": rows}
-    if cur["kind"] == "alias" and len(cur["prog"]) > 1:
+    if cur["kind"] in ("alias", "ops") and len(cur["prog"]) > 1:
         cur = {**cur, "prog": ddmin(cur["prog"], lambda sub: fails({**cur, "prog": sub}))}
     if cur["kind"] == "heralds" and len(cur["h"]) > 1:
         cur = {**cur, "h": ddmin(cur["h"], lambda sub: fails({**cur, "h": sub}))}
@@ -1289,7 +1682,7 @@ def misc_probes(ctx: Ctx) -> None:
 
 def directed_corpus() -> list:
     """the shapes most likely to be mishandled, always run first (in general form: every kind x every boundary)"""
-    out = alias_corpus()
+    out = alias_corpus() + ops_corpus()
     # seeds: every kind at the boundary values
     for kind in dict.fromkeys(SEED_KINDS):
         if kind == "np_int":
@@ -1322,18 +1715,20 @@ def directed_corpus() -> list:
 def run(ctx: Ctx) -> None:
     ctx.rule = ("generated State / AnnotatedState values with 2-8 API queries each (int and slice subscripts incl. negative "
                 "indices and steps, +, merge, ==/hash, refused assignments, client programs mutating returned values), two-step "
-                "aliasing probes (every accessor x every in-place list operation, also on derived states), herald "
+                "aliasing probes (every accessor x every in-place list operation, also on derived states), operator forms (every "
+                "augmented / reflected / folded spelling of +, all other operators, comparisons, copies, pickling, merges) on "
+                "objects that are aliased and held as dict keys / set members / list elements, herald "
                 "dictionaries in arbitrary key order with removal lists, exact dB pairs (0 dB, losses next to 0 and next to 1), "
                 "float round trips in either sign convention and argument type, very large dB values, the guard at and around "
                 "0 and 1, seeded random matrices for every seed kind at boundary and random seed values (reproducible, equal to "
                 "the integer seed, different from a neighbouring seed); a directed corpus runs first; ~15% malformed requests; "
                 "non-trivial = >=2 modes and >=2 queries / a mode with >=2 labels / >=1 herald on a non-empty state / a non-zero "
-                "dB value / N>=2 / a mutated handle of a >=2-mode state; distinct = distinct case")
+                "dB value / N>=2 / a mutated handle of a >=2-mode state / an operator program on a >=2-mode state; distinct = distinct case")
     selftest(ctx)
     SIZE["big"] = ctx.thorough
     rng = ctx.rng
     plan = [("state", ctx.n(1500, 25000)), ("astate", ctx.n(1500, 25000)), ("heralds", ctx.n(2000, 40000)),
-            ("db", ctx.n(800, 10000)), ("rand", ctx.n(300, 3000)), ("alias", ctx.n(1500, 20000))]
+            ("db", ctx.n(800, 10000)), ("rand", ctx.n(300, 3000)), ("alias", ctx.n(1500, 20000)), ("ops", ctx.n(2000, 25000))]
     misc_probes(ctx)
     # the literal witness of F14 is always part of the run
     corpus = [{"kind": "astate", "rows": [[0], [1]], "q": [["client", [["getRow", 0], ["append", 0, 5]]]]},
@@ -1377,6 +1772,12 @@ def signature(case: dict, problem: str) -> dict:
         m = re.search(r"through <([^>]*)>", problem)
         src = re.sub(r"\[[^\]]*:[^\]]*\]", "[slice]", m.group(1)) if m else "?"
         sig["defect"] = f"{case['type']} value aliases what {src} returned"
+    elif case["kind"] == "ops":
+        import re
+
+        m = re.search(r"\[form: ([a-z_]+)\]", problem)
+        what = "changed by" if "immutability" in problem else "wrong result of"
+        sig["defect"] = f"{case['type']}: {what} the operator form {m.group(1) if m else '?'}"
     else:
         import re
 
